@@ -56,7 +56,7 @@ contract('ResourceManager.add_resources', props=['C09', 'C10', 'C15'],
 ghost_after('ResourceManager._schedule_check_pending_requesters', '<entry>', **{'self._g_check_pending': 'True'})
 ghost_after('ResourceManager._check_pending_requests', '<entry>', **{'self._g_check_pending': 'False'})
 
-contract('ResourceManager._schedule_check_pending_requesters', props=['C10'], args={},
+contract('ResourceManager._schedule_check_pending_requesters', props=['C10', 'C03'], args={},
          requires={'initialised': 'self._env is not None and alive(self._env)'},
          ensures={'schedules_check_now':
                       'trace_len() == old(trace_len()) + 1 and trace_kind(old(trace_len())) == fn_id("schedule_event") and '
@@ -283,7 +283,7 @@ contract('ResourceManager.initialize', props=['C09', 'C15'], args={'env': 'ref:E
 loop('ResourceManager.initialize', 1, 'for resource_name in self._resources.keys()',
      {'env_set': 'self._env is env'}, modifies=['$trace'], index='k')
 
-contract('ResourceManager.reserve_resources_with_callback', props=['C10'], modular=True,
+contract('ResourceManager.reserve_resources_with_callback', props=['C10', 'C03'], modular=True,
          args={'request': 'dict[str,real]', 'callback': 'clo'},
          requires={'initialised': 'self._env is not None and alive(self._env)',
                    'request_is_a_dict': 'alive(request) and request is not self._resources',
@@ -330,7 +330,7 @@ ghost_after('ResourceManager._check_pending_requests',
             g_ok='g_ok and trace_kind(trace_len() - 1) == 0 and trace_fn(trace_len() - 1) == self._waiting_requests[i][1] '
                  'and trace_ref(trace_len() - 1, 0) is self and trace_ref(trace_len() - 1, 1) is self._waiting_requests[i][0]')
 
-contract('ResourceManager._check_pending_requests', props=['C10'], args={},
+contract('ResourceManager._check_pending_requests', props=['C10', 'C03'], args={},
          requires={'initialised': 'self._env is not None and alive(self._env)'},
          ensures={'no_feasible_waiter_left_unless_check_pending': WAIT_INV,
                   'callbacks_only_for_fitting_requests_with_manager_and_request_copy': 'g_ok'})
